@@ -272,6 +272,36 @@ add_artificial_parameters(Matrix<PIP_Tree_Node::Row>& context,
   space_dim += num_art_params;
 }
 
+// Update `context', `params' and `space_dim' to account for the artificial
+// parameters `aps' of a node that is being solved again: besides the columns,
+// the context gets the two constraints defining each artificial parameter
+// (denom * p <= expr <= denom * p + denom - 1), as generate_cut() did when
+// the parameter was created.
+void
+add_artificial_parameters(Matrix<PIP_Tree_Node::Row>& context,
+                          Variables_Set& params,
+                          dimension_type& space_dim,
+                          const PIP_Tree_Node::Artificial_Parameter_Sequence&
+                          aps) {
+  const dimension_type first_art_dim = space_dim;
+  add_artificial_parameters(context, params, space_dim, aps.size());
+  if (aps.empty()) {
+    return;
+  }
+  Constraint_System cs;
+  for (dimension_type k = 0; k < aps.size(); ++k) {
+    Coefficient_traits::const_reference denom = aps[k].denominator();
+    Linear_Expression le(static_cast<const Linear_Expression&>(aps[k]));
+    sub_mul_assign(le, denom, Variable(first_art_dim + k));
+    cs.insert(le >= 0);
+    neg_assign(le);
+    le += denom;
+    le -= 1;
+    cs.insert(le >= 0);
+  }
+  merge_assign(context, cs, params);
+}
+
 // Renumber the artificial parameters mentioned by the node constraints
 // `cs' and by the artificial parameters `aps' of a node, when `num_dims'
 // problem dimensions are added to a problem that had `old_space_dim' ones:
@@ -1470,9 +1500,8 @@ PIP_Decision_Node::solve(const PIP_Problem& pip,
   PPL_ASSERT(true_child != 0);
   Matrix<Row> context_true(context);
   Variables_Set all_params(params);
-  const dimension_type num_art_params = artificial_parameters.size();
   add_artificial_parameters(context_true, all_params, space_dim,
-                            num_art_params);
+                            artificial_parameters);
   merge_assign(context_true, constraints_, all_params);
   const bool has_false_child = (false_child != nullptr);
   const bool has_true_child = (true_child != nullptr);
@@ -2703,8 +2732,7 @@ PIP_Solution_Node::solve(const PIP_Problem& pip,
 
   Matrix<Row> ctx(context);
   Variables_Set all_params(params);
-  const dimension_type num_art_params = artificial_parameters.size();
-  add_artificial_parameters(ctx, all_params, space_dim, num_art_params);
+  add_artificial_parameters(ctx, all_params, space_dim, artificial_parameters);
   merge_assign(ctx, constraints_, all_params);
 
   // If needed, (re-)check feasibility of context.
